@@ -10,6 +10,7 @@ CONSTANTS
   MaxTx = 3
   WithTry = TRUE
   WithNoRS = TRUE
+  WithCb = TRUE
   TxSteps = 14
 INVARIANT Emit
 CHECK_DEADLOCK FALSE
